@@ -144,6 +144,11 @@ class CXX2C(Emitter, ExprMixin, LibMixin, StmtMixin):
         L += types
         for s in self.statics.values():
             if s: L.append(s)
+        # C type definitions the spec files use in stubs of functions the extracted code may stop calling: emitted only when
+        # the extraction did not produce them itself (unit key ensure_types: {name: definition line})
+        have = '\n'.join(L)
+        for nm, line in self.u.get('ensure_types', {}).items():
+            if not re.search(r'\b%s\b' % re.escape(nm), have): L.append(line + '   /* ensure_types */')
         L.append('/*@PRELUDE@*/')
         for cn, p in self.autostubs.items():
             # auto-stub = assumed contract "returns an arbitrary value, no effect on verified state".
